@@ -81,7 +81,33 @@ def patterns():
         p.Quotient(a, b), p.Quotient(a, a), p.Power(a, 2), p.Power(a, b), p.Call(f, (a, b)), p.Call(f, (a, p.Sum((p.Product((2, a)), b)))), p.Call(f, (a, a)),
         p.Subscript(g, (a,)), p.Subscript(g, (a, b)), p.Comparison(a, "<", b), p.If(p.Comparison(a, "<", 0), b, c), p.Sum((a, b, c)), p.Product((a, p.Sum((b, 1)))),
         p.Sum((p.Power(a, 2), p.Power(b, 2))), p.Sum((a, a)), p.FloorDiv(a, p.Sum((b, a))), p.Call(f, (p.Sum((a, b)), p.Product((a, b)))),
+        # sums / products none of whose direct operands is a bare candidate variable (every operand must be paired up structurally)
+        p.Sum((p.Call(f, (a,)), 2)), p.Product((2, p.Call(f, (a,)))), p.Call(f, (p.Sum((p.Call(g, (a,)), 1)), b)), p.Sum((p.Power(a, 2), 1)),
+        p.Product((p.Sum((a, 1)), p.Sum((b, 2)))), p.Sum((p.Product((2, p.Call(f, (a,)))), p.Product((3, p.Call(f, (b,)))))),
     ]
+
+
+def extended(t):
+    """Variants of t in which ONE sum or product node (at any depth) has one more operand."""
+    import dataclasses
+    import pymbolic.primitives as p
+    out = []
+    extra = p.Variable("w9")
+    if isinstance(t, (p.Sum, p.Product)):
+        out.append(type(t)((*t.children, extra)))
+        out.append(type(t)((extra, *t.children)))
+    if isinstance(t, p.Expression) and dataclasses.is_dataclass(t):
+        for fld in dataclasses.fields(t):
+            v = getattr(t, fld.name)
+            if isinstance(v, p.Expression):
+                for v2 in extended(v):
+                    out.append(dataclasses.replace(t, **{fld.name: v2}))
+            elif isinstance(v, tuple):
+                for i, c in enumerate(v):
+                    if isinstance(c, p.Expression):
+                        for c2 in extended(c):
+                            out.append(dataclasses.replace(t, **{fld.name: v[:i] + (c2,) + v[i + 1:]}))
+    return out
 
 
 def target_atoms():
@@ -93,7 +119,7 @@ def target_atoms():
 def bounded(tier, seed, procs):
     import pymbolic.primitives as p
     from pymbolic.mapper.unifier import UnidirectionalUnifier
-    b = BoundedRun("unifier", rule="24 patterns over candidate variables a, b, c (repeated occurrences, nested sums/products) x targets = instances of the pattern under all "
+    b = BoundedRun("unifier", rule="30 patterns over candidate variables a, b, c (repeated occurrences, nested sums/products, sums/products without a bare candidate operand) x targets = instances of the pattern (and instances with one extra operand in one of their sums/products) under all "
                    "assignments of 6 atoms to its variables (thinned) + all other patterns' instances as independent targets + commuted / regrouped variants; candidate sets: "
                    "all pattern variables and every proper subset: each record binds only candidates, binds all candidates occurring in the pattern, and "
                    "Inst(pattern, record) == target modulo AC (independent normal form); targets that are injective renamings must produce >= 1 record; non-trivial = pattern with >= 2 variables",
@@ -122,6 +148,10 @@ def bounded(tier, seed, procs):
             if isinstance(t, (p.Sum, p.Product)) and len(t.children) > 1:
                 extra.append(type(t)(tuple(reversed(t.children))))
         targets = targets + extra
+        # instance plus one extra operand in one of its sums / products (top level or nested): never an instance of the pattern unless a
+        # bare candidate operand of that node can absorb the extra
+        for t in [t for t, _ in inst_targets[id(pat)]][:8]:
+            targets += extended(t)[:6]
         # injective renamings
         ren = instantiate(pat, {"a": p.Variable("u"), "b": p.Variable("v"), "c": p.Variable("w")})
         targets.append(ren)
